@@ -17,6 +17,11 @@ records with such a fate, and identifiers with interior dots, are judged under
 circumstance-tagged signatures (``/unwritable-record``, ``/dotted-id@<store>``,
 ``/suffix-like-id@<store>``) with one membership clause per view.
 
+Family ``lib`` composes the library's own filter apps (min_length,
+take_named_seqs, omit_degenerates) between a loader and a writer: there the
+fate of a record is decided by the content of its input file and the fold model
+follows the behaviour those apps document.
+
 The record a value was computed from is read from the CONTENT of the value
 (see checks/helpers_c14_apps.py), so "written under the wrong identifier" is
 observable independently of cogent3's own source bookkeeping.
@@ -55,6 +60,13 @@ RULE = (
     "generated permutation) or the real loky executor with generated per-record sleeps and max_workers. Each case runs every "
     "input alone, as_completed, apply_to and (not for loky) a second apply_to, and compares store membership, identifiers, "
     "content, origin/type/message/source of every not-completed record with the fold model and with the solo results. "
+    "Entry forms of the dstore argument: besides stores and lists, ONE path given as a str or a pathlib.Path (one record; about a tenth of the "
+    "owned-schedule cases), as the docstrings of apply_to and as_completed allow ('a path, list of paths, or DataStore'); a failure of "
+    "as_completed on a single Path is reported under as_completed[dstore-is-one-Path]. Compositions with NO generic step (loader + writer, "
+    "loader + observer + writer; an eighth of the file-based cases). Family lib: load_unaligned + min_length(8) / take_named_seqs('m', 'other') "
+    "or load_aligned + omit_degenerates(moltype='dna'), then a writer; the fate of a record follows from the content of its fasta file "
+    "(accepted unchanged / accepted with sequences or columns removed / rejected with the documented FALSE or FAIL NotCompleted named after the "
+    "app and its documented message / unreadable for the loader), every sequence starts with three nucleotides naming the record. "
     "Non-trivial = parallel execution (owned or loky) with a non-identity completion order (owned) and at least one failing and "
     "one succeeding record; distinct = distinct case encodings."
 )
@@ -74,6 +86,15 @@ ASSUMPTIONS = [
     "the second apply_to is only required not to re-run records that are completed in the store and to leave membership and content unchanged",
     "inputs exposing their own `source` attribute are handed through as_completed un-proxied: a bare wrong-type result of such an input cannot name its source and is only counted; a live NotCompleted (solo call, as_completed) is only required to name the source when the failing value carried one, the record in the store always is",
     "identifiers differing only in case (a / A) are used: a case-sensitive file system is assumed for the scratch directory",
+    "a single str / pathlib.Path as the dstore argument is one input (docstrings of _apply_to and _as_completed: 'a path, list of paths, or DataStore'; _apply_to tests isinstance(dstore, (str, Path)))",
+    "loader + writer without a generic step: load_tabular declares tabular return types only, so composing it directly with write_json / write_db / write_seqs is rejected by the "
+    "type check of '+' by design; such cases use write_tabular (with an observer in between every writer composes)",
+    "family lib models what the apps document: min_length(8) (subtract_degen=True) counts non-degenerate, non-gap characters of the shortest sequence and returns "
+    "NotCompleted('FALSE', message '<n> < min_length 8'); take_named_seqs('m', 'other') returns NotCompleted('FALSE', \"named seq(s) {'other'} not in [names in file order]\") when a "
+    "name is missing (one missing name only, so the set is printed deterministically); omit_degenerates(moltype='dna') drops every column holding a character outside ACGT (gaps "
+    "included: gap_is_degen=True) and returns NotCompleted('FAIL', 'all columns contained degenerates') when none remains. take_n_seqs is NOT used: with fixed_choice it is documented "
+    "to be stateful, so serial and parallel runs legitimately differ. An unreadable lib file: a character J (load_unaligned(moltype='dna'): AlphabetError) which also makes the "
+    "sequences ragged (load_aligned: 'not all the same length'); load_aligned does not validate characters itself",
 ]
 
 SCRATCH = os.path.join(os.path.dirname(os.path.dirname(os.path.abspath(__file__))), ".scratch")
@@ -81,23 +102,33 @@ KEYS = ["a", "aa", "ab", "ba", "b", "A", "r1", "r10", "r11", "x_1", "json1", "fa
 # identifiers with interior dots (the part after the last dot is NOT a format suffix); drawn together with their stems
 DOTTED_KEYS = ["g", "g.1", "g.2", "a.b", "A.FASTA", "r1.x"]
 SUFFIX_LIKE = {"fasta", "json", "tsv", "txt", "gz"}
-LOADED = ("store", "members", "paths", "pathobjs", "db")  # presentations that start the composition with a loader
-SUFFIX = {"seqs": "fasta", "dict": "txt", "tab": "tsv"}
+LOADED = ("store", "members", "paths", "pathobjs", "db", "onestr", "onepath")  # presentations that start the composition with a loader
+SINGLE = ("onestr", "onepath")  # ONE path (str / pathlib.Path) given as the dstore argument itself, as the docstrings of apply_to / as_completed allow
+SUFFIX = {"seqs": "fasta", "dict": "txt", "tab": "tsv", "lib": "fasta"}
 WRITERS = {
     "seqs": ["write_seqs:dir", "write_seqs:dir", "write_seqs:sqlite", "write_json:dir", "write_db:sqlite"],
     "dict": ["write_json:dir", "write_json:dir", "write_json:sqlite", "write_db:sqlite", "write_db:sqlite"],
     "tab": ["write_tabular:dir", "write_tabular:dir", "write_tabular:sqlite", "write_json:dir", "write_db:sqlite"],
+    "lib": ["write_seqs:dir", "write_seqs:dir", "write_seqs:sqlite", "write_json:dir", "write_db:sqlite"],
 }
 TYPED_WRITERS = {"write_seqs", "write_tabular"}
 OUT_SUFFIX = {"write_seqs": "fasta", "write_json": "json", "write_tabular": "tsv"}
 LOADER_NAME = {"seqs": "load_unaligned", "dict": "c14_load_rec", "tab": "load_tabular"}
+# family "lib": loader + ONE app of cogent3.app.sample + writer.  The fate of a record follows from the content of its file and
+# the documented behaviour of the app: (loader, type of the NotCompleted the app returns for a record it rejects)
+LIB_APPS = {
+    "min_length": ("load_unaligned", "FALSE"),  # min_length(8): "<shortest non-degenerate length> < min_length 8"
+    "take_named_seqs": ("load_unaligned", "FALSE"),  # take_named_seqs("m", "other"): "named seq(s) {'other'} not in [names]"
+    "omit_degenerates": ("load_aligned", "FAIL"),  # omit_degenerates(moltype="dna"): "all columns contained degenerates"
+}
+LIB_MIN_LENGTH = 8
 
 
 # ================================================================ generator
 @st.composite
 def cases(draw, mode):
     fams = ["seqs", "seqs", "dict", "dict", "dict", "tab"]
-    family = draw(st.sampled_from(fams if mode == "owned" else fams[::-1]))
+    family = draw(st.sampled_from(fams + ["lib"] if mode == "owned" else fams[::-1]))
     lo, hi = (1, 12) if mode == "owned" else (3, 8)
     n = draw(st.integers(lo, hi))
     pool = KEYS + DOTTED_KEYS * 2 if draw(st.integers(0, 3)) == 0 else KEYS
@@ -109,15 +140,26 @@ def cases(draw, mode):
         present = draw(st.sampled_from(["store", "members", "paths", "pathobjs", "objs", "db"]))
     else:
         present = draw(st.sampled_from(["store", "members", "paths", "pathobjs"]))
+    if family == "lib":
+        present = draw(st.sampled_from(["store", "store", "members", "paths", "paths", "pathobjs", "onestr", "onepath"]))
+    elif mode == "owned" and draw(st.integers(0, 11)) == 5:
+        present = draw(st.sampled_from(SINGLE))
+    if present in SINGLE:
+        keys, n = keys[:1], 1
     if present == "db":
         # members of a sqlite store carry no format suffix: a dotted one would be read as "stem.suffix" by get_unique_id
         keys = [k if "." not in k else KEYS[i] for i, k in enumerate(keys)]
         keys = keys if len(set(keys)) == len(keys) else KEYS[: len(keys)]
     from_files = present in LOADED
-    nsteps = draw(st.integers(1, 3))
+    # loader + writer with no generic step in between is a composition too
+    nsteps = draw(st.sampled_from([0, 1, 1, 1, 2, 2, 3, 3])) if from_files and mode == "owned" else draw(st.integers(1, 3))
     layout = [f"step{i}" for i in range(1, nsteps + 1)]
+    lib_app = None
+    if family == "lib":
+        lib_app = draw(st.sampled_from(sorted(LIB_APPS)))
+        nsteps, layout = 0, ["lib"]
     if draw(st.integers(0, 3)) == 0:
-        layout.insert(draw(st.integers(0, nsteps)), "obs")
+        layout.insert(draw(st.integers(0, len(layout))), "obs")
     wrong_ok = draw(st.integers(0, 9)) < 4
     kinds = ["ok"] * 12 + ["raise"] * 3 + ["none"] * 2 + ["nc"] * 2
     if family == "dict":
@@ -140,6 +182,9 @@ def cases(draw, mode):
             if o != "ok":
                 col[k] = o
         outcomes.append(col)
+    if family == "lib":
+        # what the library app will make of the record is decided by the content of its file
+        outcomes = [{k: o for k in keys for o in [draw(st.sampled_from(["ok", "ok", "ok", "ok2", "fail", "fail2"]))] if o != "ok"}]
     bad = []
     if from_files and present != "db" and draw(st.integers(0, 2)) == 0:
         bad = sorted(draw(st.sets(st.sampled_from(keys), max_size=max(1, n // 3))))
@@ -152,6 +197,9 @@ def cases(draw, mode):
             if kind:
                 odd_info[k] = kind
     writer = draw(st.sampled_from(WRITERS[family]))
+    if family == "tab" and not layout:
+        # load_tabular declares tabular return types only: composing it directly with a SerialisableType writer is rejected by design
+        writer = draw(st.sampled_from(["write_tabular:dir", "write_tabular:dir", "write_tabular:sqlite"]))
     source_style = draw(st.sampled_from(["{k}.json", "sub/{k}.json", "{k}", "{k}.txt.gz"])) if not from_files else None
     if source_style == "{k}" and any("." in k for k in keys):
         # a bare dotted source has no format suffix: get_unique_id would read the end of the name as one
@@ -183,6 +231,8 @@ def cases(draw, mode):
         "delays": delays,
         "logger": draw(st.integers(0, 5)) == 0,
     }
+    if lib_app:
+        case["lib_app"] = lib_app
     return case
 
 
@@ -192,6 +242,58 @@ def input_source_name(case, key):
     if case["source_style"] is None:
         return f"{key}.{SUFFIX[case['family']]}"
     return Path(case["source_style"].format(k=key)).name
+
+
+def loader_name(case):
+    return LIB_APPS[case["lib_app"]][0] if case["family"] == "lib" else LOADER_NAME[case["family"]]
+
+
+ALL_KEYS = KEYS + DOTTED_KEYS
+
+
+def key_code(key):
+    """three nucleotides naming the key: every sequence of a lib-family file starts with them, so the content of a
+    result tells which input it was computed from"""
+    i = ALL_KEYS.index(key)
+    return "ACGT"[i // 16] + "ACGT"[(i // 4) % 4] + "ACGT"[i % 4]
+
+
+def lib_file(case, key):
+    """[(name, sequence)] of the input file of a lib-family record (file order)"""
+    o = case["outcomes"][0].get(key, "ok")
+    c = key_code(key)
+    app = case["lib_app"]
+    if app == "min_length":
+        rows = [("m", c + "ACGTAC"), ("other", c + {"ok": "ACGTA", "ok2": "ACGTA", "fail": "AC", "fail2": "ACGNNNN"}[o])]
+        if o == "ok2":
+            rows.append(("extra", c + "ACGTACGT"))
+        return rows
+    if app == "take_named_seqs":
+        m, other, extra = ("m", c + "ACGTAC"), ("other", c + "ACGTA"), ("extra", c + "ACGTACGT")
+        return {"ok": [m, other], "ok2": [extra, m, other], "fail": [m, extra], "fail2": [extra, m]}[o]
+    return [("m", c + ("ACGTAC" if o.startswith("ok") else "ACG")), ("other", {"ok": c + "AC-TNC", "ok2": c + "ACGTAA", "fail": "NNNNNN", "fail2": "------"}[o])]
+
+
+def lib_result(case, key):
+    """{name: sequence} the library app is documented to return for a record it accepts"""
+    rows = lib_file(case, key)
+    app = case["lib_app"]
+    if app == "min_length":
+        return dict(rows)
+    if app == "take_named_seqs":
+        return {n: q for n, q in rows if n in ("m", "other")}
+    keep = [i for i in range(len(rows[0][1])) if all(q[i] in "ACGT" for _, q in rows)]
+    return {n: "".join(q[i] for i in keep) for n, q in rows}
+
+
+def lib_message(case, key):
+    rows = lib_file(case, key)
+    app = case["lib_app"]
+    if app == "min_length":
+        return f"{min(sum(ch in 'ACGT' for ch in q) for _, q in rows)} < min_length {LIB_MIN_LENGTH}"
+    if app == "take_named_seqs":
+        return f"named seq(s) {{'other'}} not in {[n for n, _ in rows]!r}"
+    return "all columns contained degenerates"
 
 
 def fold(case):
@@ -208,11 +310,18 @@ def fold(case):
     for key in case["keys"]:
         state = {"status": "C", "trace": [], "falsy": False}
         if has_loader and key in case["bad"]:
-            state = {"status": "N", "type": "ERROR", "origin": LOADER_NAME[family], "kind": "loader", "step": 0, "src_circ": "ok"}
+            state = {"status": "N", "type": "ERROR", "origin": loader_name(case), "kind": "loader", "step": 0, "src_circ": "ok"}
         for item in case["layout"]:
             if state["status"] == "N":
                 continue  # passes through unchanged (observer included: it returns what it gets)
             if item == "obs":
+                continue
+            if item == "lib":
+                if case["outcomes"][0].get(key, "ok").startswith("fail"):
+                    app = case["lib_app"]
+                    state = {"status": "N", "type": LIB_APPS[app][1], "origin": app, "kind": "lib", "step": 1, "src_circ": "ok", "message": lib_message(case, key)}
+                else:
+                    state = {"status": "C", "trace": [1], "falsy": False}
                 continue
             idx = int(item[4:])
             origin = f"c14_{family}_step{idx}"
@@ -260,6 +369,8 @@ def expected_value(case, key, fate):
         return {"wrong": 7}
     if fate.get("unw") == "all":
         return {"unwritable": key}
+    if family == "lib":
+        return {"seqs": lib_result(case, key)}
     if family == "seqs":
         seqs = {f"k_{key}": "ACGTAC", "other": "ACGT"}
         for i in fate["trace"]:
@@ -284,9 +395,11 @@ def rec_source(case, key):
     return case["source_style"].format(k=key)
 
 
-def message_ok(kind, key, step, msg, wname=None):
+def message_ok(kind, key, step, msg, wname=None, want=None):
     if not isinstance(msg, str):
         return False
+    if kind == "lib":  # the message the library app documents
+        return msg == want
     if kind == "unwritable":
         # write_db serialises through its own sub-composition, which captures the exception: any traceback text
         return bool(msg.strip()) if wname == "write_db" else f"unwritable:{key}" in msg
@@ -301,7 +414,7 @@ def message_ok(kind, key, step, msg, wname=None):
     if kind == "nc":
         return msg == f"own:{key}:{step}"
     if kind == "loader":
-        return any(t in msg for t in ("AlphabetError", f"unreadable:{key}", "Inconsistent number of fields"))
+        return any(t in msg for t in ("AlphabetError", f"unreadable:{key}", "Inconsistent number of fields", "not all the same length"))
     return False
 
 
@@ -323,11 +436,14 @@ def canon_live(s: Soft, tag, obj):
     if isinstance(obj, dict):
         return {"rec": dict(obj)}
     name = obj.__class__.__name__
-    if name == "SequenceCollection":
+    if name in SEQS_CLASSES:
         return {"seqs": {n: str(v) for n, v in obj.to_dict().items()}}
     if name == "Table":
         return {"table": {"header": [str(h) for h in obj.header], "rows": [[str(c) for c in r] for r in obj.to_list()]}}
     return {"other": repr(obj)}
+
+
+SEQS_CLASSES = ("SequenceCollection", "ArrayAlignment", "Alignment")  # load_aligned gives an alignment
 
 
 def canon_primitive(data):
@@ -339,7 +455,7 @@ def canon_primitive(data):
     if isinstance(data, dict) and "type" in data and "version" in data:
         obj = deserialise_object(data)
         name = obj.__class__.__name__
-        if name == "SequenceCollection":
+        if name in SEQS_CLASSES:
             return {"seqs": {n: str(v) for n, v in obj.to_dict().items()}}
         if name == "Table":
             return {"table": {"header": [str(h) for h in obj.header], "rows": [[str(c) for c in r] for r in obj.to_list()]}}
@@ -454,7 +570,12 @@ def write_inputs(case, indir):
     for key in case["keys"]:
         bad = key in case["bad"]
         path = os.path.join(indir, f"{key}.{SUFFIX[family]}")
-        if family == "seqs":
+        if family == "lib":
+            rows = lib_file(case, key)
+            if bad:  # load_unaligned(moltype="dna") rejects the character J, load_aligned rejects ragged sequences
+                rows = [(nm, q + ("JJ" if i == 0 else "")) for i, (nm, q) in enumerate(rows)]
+            text = "".join(f">{nm}\n{q}\n" for nm, q in rows)
+        elif family == "seqs":
             text = f">k_{key}\nACGTAC\n>other\nAC--GT\n" if not bad else f">k_{key}\nACGTJJ\n>other\nACGT\n"
         elif family == "dict":
             text = f"{'!' if bad else ''}{key}|{key}.{SUFFIX[family]}|{case.get('odd_info', {}).get(key, '')}\n"
@@ -498,8 +619,10 @@ def make_inputs(case, indir, stores=None):
             return store, [(k, by_key[k]) for k in listed]
         return [by_key[k] for k in keys], [(k, by_key[k]) for k in keys]
     paths = [os.path.join(indir, f"{k}.{sfx}") for k in keys]
-    if present == "pathobjs":
+    if present in ("pathobjs", "onepath"):
         paths = [Path(p) for p in paths]
+    if present in SINGLE:  # the path itself is the dstore argument
+        return paths[0], list(zip(keys, paths))
     return paths, list(zip(keys, paths))
 
 
@@ -513,12 +636,22 @@ def build_chain(case, with_delays=False):
     app = None
     if case["present"] == "db":
         app = io_app.load_db()
+    elif family == "lib":
+        app = io_app.load_unaligned(moltype="dna") if loader_name(case) == "load_unaligned" else io_app.load_aligned(moltype="dna", format="fasta")
     elif case["present"] in LOADED:
         app = {"seqs": lambda: io_app.load_unaligned(moltype="dna"), "dict": H.c14_load_rec, "tab": io_app.load_tabular}[family]()
     first_step = True
     for item in case["layout"]:
         if item == "obs":
             nxt = H.c14_observer()
+        elif item == "lib":
+            from cogent3.app import sample as sample_app
+
+            nxt = {
+                "min_length": lambda: sample_app.min_length(LIB_MIN_LENGTH),
+                "take_named_seqs": lambda: sample_app.take_named_seqs("m", "other"),
+                "omit_degenerates": lambda: sample_app.omit_degenerates(moltype="dna"),
+            }[case["lib_app"]]()
         else:
             idx = int(item[4:])
             delays = case["delays"] if (with_delays and first_step) else None
@@ -667,12 +800,18 @@ def _run(s: Soft, case, root, stores):
     s.cls(f"family:{family}", f"present:{case['present']}", f"writer:{wname}", f"store:{skind}", f"exec:{execution}")
     s.cls("n:1" if n == 1 else "n:2-4" if n <= 4 else "n:5-8" if n <= 8 else "n:9-12")
     s.cls(f"steps:{sum(1 for x in case['layout'] if x != 'obs')}")
+    if family == "lib":
+        s.cls(f"lib-app:{case['lib_app']}")
+    if case["present"] in SINGLE:
+        s.cls("dstore-is-one-path")
+    if from_files and not [x for x in case["layout"] if x != "obs"]:
+        s.cls("loader+writer-without-generic-step")
     if "obs" in case["layout"]:
         s.cls("with-observer")
     for f in fates.values():
         s.cls("fate:" + ("completed-wrong-value" if f.get("wrong") else "completed-falsy" if f.get("falsy") else "completed-unjson-value" if f.get("unw") else "completed" if f["status"] == "C" else f"nc-{f['kind']}" + ("-at-writer" if f["step"] == "writer" else "")))
         if f["status"] == "N" and f["step"] not in ("writer",) and isinstance(f["step"], int):
-            later = [x for x in case["layout"] if x != "obs" and int(x[4:]) > f["step"]]
+            later = [x for x in case["layout"] if x.startswith("step") and int(x[4:]) > f["step"]]
             if later:
                 s.cls("nc-passes-through-later-steps")
     s.cls("failures:none" if n_fail == 0 else "failures:all" if n_ok == 0 else "failures:mixed")
@@ -718,10 +857,12 @@ def _run(s: Soft, case, root, stores):
     ac_keys = [k for k, _ in ac_singles]  # submission order
 
     def run_ac():
-        return call_app(s, pre + "as_completed", lambda: list(ac_app.as_completed(ac_inputs, parallel=parallel, par_kw=par_kw, show_progress=False)))
+        # a pathlib.Path given as the dstore itself: its own circumstance, so that a failure there does not hide the other entry forms
+        sig = pre + "as_completed" + ("[dstore-is-one-Path]" if case["present"] == "onepath" else "")
+        return call_app(s, sig, lambda: list(ac_app.as_completed(ac_inputs, parallel=parallel, par_kw=par_kw, show_progress=False)))
 
     (ok, got), sched = scheduled(run_ac)
-    if sched is not None and n > 0:
+    if sched is not None and n > 0 and ok:
         s.check(sched.invocations == 1, pre + "as_completed/parallel-path-not-taken", f"PAR.as_completed invoked {sched.invocations} times for parallel=True")
     if ok:
         s.eq(len(got), n, pre + "as_completed/count", f"{len(got)} results for {n} inputs")
@@ -787,7 +928,7 @@ def _run(s: Soft, case, root, stores):
         return call_app(s, sig, lambda: app.apply_to(inputs, parallel=parallel, par_kw=par_kw, logger=logger, show_progress=False), unwritable=unwritable)
 
     (ok, ds), sched = scheduled(run_apply)
-    if sched is not None:
+    if sched is not None and ok:
         s.check(sched.invocations == 1, pre + "apply_to/parallel-path-not-taken", f"PAR.as_completed invoked {sched.invocations} times for parallel=True")
     if not ok:
         return
@@ -838,7 +979,7 @@ def check_nc_fields(s: Soft, tag, case, key, fate, nc, stored=False):
     else:
         s.eq(nc["origin"], fate["origin"], f"{tag}/nc-origin/{kind}", f"input {key!r} ({brief})")
     s.eq(nc["type"], fate["type"], f"{tag}/nc-type/{kind}", f"input {key!r} ({brief})")
-    s.check(message_ok(kind, key, fate["step"], nc["message"], case["writer"].split(":")[0]), f"{tag}/nc-message/{kind}", f"input {key!r} ({brief}): message {nc['message']!r:.300}")
+    s.check(message_ok(kind, key, fate["step"], nc["message"], case["writer"].split(":")[0], want=fate.get("message")), f"{tag}/nc-message/{kind}", f"input {key!r} ({brief}): message {nc['message']!r:.300}")
     if stored or fate["src_circ"] == "ok":
         # a live NotCompleted can only know what the failing value carried; the record in the store must name the source
         want = input_source_name(case, key)
@@ -987,7 +1128,7 @@ KNOWN_PREDICATES = {
 
 META = {
     "technique": "Hypothesis-generated compositions, outcome tables and completion orders; fold model plus solo-call differential; owned pickling scheduler replacing PAR.as_completed, validated by a few real loky runs",
-    "level_text": "Each run drives several hundred compositions (three value families, four writers, directory and sqlite stores, seven input presentations including in-memory collections and a sqlite store read by load_db) over 1-12 records (identifiers with interior dots included) with generated per-record outcomes at every step, the writer included (values the writer raises on), serially and under generated completion orders through a pickling executor, and checks every record of the output store (identifier, completed xor not-completed, content, origin, type, message, source) against a fold model and against calling the composition on that input alone; six cases go through the real loky executor with skewed task durations.",
-    "level_note": "Only the owned-schedule layer is exhaustive over completion orders; the real-executor layer observes the schedules the OS produces. MPI, zipped input stores, falsy inputs, bare dotted sources and writer failures after a partial write are not driven.",
+    "level_text": "Each run drives several hundred compositions (three harness value families plus compositions around the library's min_length / take_named_seqs / omit_degenerates, compositions without any generic step, four writers, directory and sqlite stores, nine input presentations including in-memory collections, a sqlite store read by load_db and a single str / Path given as the dstore) over 1-12 records (identifiers with interior dots included) with generated per-record outcomes at every step, the writer included (values the writer raises on), serially and under generated completion orders through a pickling executor, and checks every record of the output store (identifier, completed xor not-completed, content, origin, type, message, source) against a fold model and against calling the composition on that input alone; six cases go through the real loky executor with skewed task durations.",
+    "level_note": "Only the owned-schedule layer is exhaustive over completion orders; the real-executor layer observes the schedules the OS produces. MPI, zipped input stores, falsy inputs, bare dotted sources and writer failures after a partial write are not driven. Of the library's own generic apps only min_length, take_named_seqs and omit_degenerates are composed (one at a time); stateful ones (take_n_seqs with fixed_choice) are excluded by design.",
     "design_ref": "DESIGN.md section 1, C14",
 }
